@@ -172,7 +172,69 @@ func (fe *FE) execCall(st *State, ins ssa.Instruction, com *ssa.CallCommon, res 
 		fe.errorf("internal: execCall in defer mode")
 		return false
 	}
+	if mode == "call" && ci.con == nil && ci.fn != nil && ci.binds == nil && fe.inlinable(st, ci.fn) && len(fe.matchHooks(ci, mode)) == 0 {
+		return fe.inlineCall(st, ci, res)
+	}
 	return fe.applyContract(st, ins, ci, res, site, mode)
+}
+
+// inlinable: a function of the repository without a contract, loop-free, without defer / go / recover, not already being
+// inlined (no recursion), at most three levels deep. Its body is executed in place of the call, so a helper extracted
+// from a verified function is judged by what it does, not rejected for lacking a contract.
+func (fe *FE) inlinable(st *State, fn *ssa.Function) bool {
+	if fn == nil || len(fn.Blocks) == 0 || fn.Pkg == nil || !fe.V.inRepo(fn.Pkg) || len(fn.FreeVars) > 0 || fn == fe.Fn || len(st.frames) >= 3 || fn.Recover != nil {
+		return false
+	}
+	for _, fr := range st.frames {
+		if fr.fn == fn {
+			return false
+		}
+	}
+	// loop-free: no edge to a block that is on the DFS stack
+	on := map[*ssa.BasicBlock]bool{}
+	seen := map[*ssa.BasicBlock]bool{}
+	ok := true
+	var dfs func(b *ssa.BasicBlock)
+	dfs = func(b *ssa.BasicBlock) {
+		seen[b], on[b] = true, true
+		for _, ins := range b.Instrs {
+			switch ins.(type) {
+			case *ssa.Defer, *ssa.Go, *ssa.RunDefers, *ssa.Select, *ssa.Send:
+				ok = false
+			}
+		}
+		for _, s := range b.Succs {
+			if on[s] {
+				ok = false
+			} else if !seen[s] {
+				dfs(s)
+			}
+		}
+		on[b] = false
+	}
+	dfs(fn.Blocks[0])
+	return ok
+}
+
+func (fe *FE) inlineCall(st *State, ci *callInfo, res ssa.Value) bool {
+	fn := ci.fn
+	if len(fn.Params) != len(ci.args) {
+		return false
+	}
+	fe.usedExt["inlined "+fe.V.contractKey(fn)+" (no contract: its loop-free body is executed in place of the call)"] = true
+	for i, p := range fn.Params {
+		a := ci.args[i]
+		a.GoT = p.Type()
+		st.vals[p] = a
+	}
+	saved := make(map[string]Val, len(st.names))
+	for k, v := range st.names {
+		saved[k] = v
+	}
+	st.frames = append(st.frames, &inlineFrame{fn: fn, retTo: fe.curB, retIdx: fe.curI, res: res, names: saved})
+	st.path = append(st.path, "inline:"+fn.Name())
+	fe.runBlock(st, fn.Blocks[0], nil)
+	return false
 }
 
 func (fe *FE) applyUnknownCall(st *State, com *ssa.CallCommon, res ssa.Value, site, why string) bool {
@@ -1447,7 +1509,7 @@ func (fe *FE) execNext(st *State, x *ssa.Next, b *ssa.BasicBlock) bool {
 	st.assume(implies(okT, and(sel(dom, k), not(sel(vis.T, k)))))
 	st.assume(implies(not(okT), fmt.Sprintf("(forall ((q %s)) (! (=> (select %s q) (select %s q)) :pattern ((select %s q))))", ks, dom, vis.T, dom)))
 	if it.IterMap != "0" {
-		st.assume(implies("(= " + it.IterMap + " 0)", not(okT)))
+		st.assume(implies("(= "+it.IterMap+" 0)", not(okT)))
 	}
 	nv := fe.newConst(st, "visited", "(Array "+ks+" Bool)")
 	st.assume(eq(nv, ite(okT, "(store "+vis.T+" "+k+" true)", vis.T)))
@@ -1648,11 +1710,12 @@ func (fe *FE) execFmt(st *State, ins ssa.Instruction, callee *ssa.Function, ci *
 // def-use chains: the text is the argument of antlr.NewInputStream; GengineErrorListener objects attached to a
 // recognizer derived from NewgengineLexer / NewgengineParser are the lexer / parser listeners; the tree listener
 // is the GengineParserListener passed to Walk, built over a KnowledgeContext kc. Effects at the Walk call:
-//   lexer listener  el: len(el.GrammarErrors) > 0 <=> LexErrs(text)       (only if one is attached)
-//   parser listener el: len(el.GrammarErrors) > 0 <=> SynErrs(text)
-//   tree listener   pl: len(pl.ParseErrors)   > 0 <=> SemErrs(text)
-//   kc.RuleEntities: when no error of any kind: every entry is a non-nil entity whose RuleName is its key (duplicate
-//   names are a SemErr), and there is at least one rule (grammar: primary = ruleEntity+)
+//
+//	lexer listener  el: len(el.GrammarErrors) > 0 <=> LexErrs(text)       (only if one is attached)
+//	parser listener el: len(el.GrammarErrors) > 0 <=> SynErrs(text)
+//	tree listener   pl: len(pl.ParseErrors)   > 0 <=> SemErrs(text)
+//	kc.RuleEntities: when no error of any kind: every entry is a non-nil entity whose RuleName is its key (duplicate
+//	names are a SemErr), and there is at least one rule (grammar: primary = ruleEntity+)
 func (fe *FE) execAntlrWalk(st *State, ins ssa.Instruction, ci *callInfo, site string) bool {
 	fe.usedExt["extern antlr pipeline (native model execAntlrWalk: error lists reflect LexErrs/SynErrs/SemErrs of the text for exactly the attached listeners; an error-free walk leaves a non-empty map of non-nil entities keyed by their names; a blank text is a syntax error)"] = true
 	var text string
